@@ -8,3 +8,4 @@ import WrglModel.Props.C16
 #print axioms Wrgl.C16_fact_mergeErrChan
 #print axioms Wrgl.C16_error_report_never_blocks
 #print axioms Wrgl.C16_error_report_blocks_witness
+#print axioms Wrgl.C16_fact_pbarLazyInitLocked
